@@ -409,12 +409,21 @@ def run_bounded(case_id, tier="quick", seed=0):
     try:
         with _np.errstate(all="ignore"):
             case.fn(ctx)
-    except Exception:
-        summary["error"] = "bounded harness crashed: " + traceback.format_exc()[-1500:]
+    except Exception as e:
+        frames = traceback.extract_tb(e.__traceback__)
+        if any(os.sep + "geometer" + os.sep in f.filename for f in frames):
+            # an exception raised inside the library on an enumerated input is a failing clause, not a defect of the harness
+            lib = [f for f in frames if os.sep + "geometer" + os.sep in f.filename][-1]
+            ctx.counts["no-unexpected-exception"] = [1, 0]
+            ctx.fail["no-unexpected-exception"] = "%s: %s @ %s:%s (%s)" % (type(e).__name__, str(e)[:200], os.path.basename(lib.filename), lib.lineno, lib.name)
+        else:
+            summary["error"] = "bounded harness crashed: " + traceback.format_exc()[-1500:]
+    else:
+        ctx.counts.setdefault("no-unexpected-exception", [1, 1])
     for name, (n, ok) in ctx.counts.items():
         w = ctx.fail.get(name)
         cp = getattr(ctx, "clause_prop", {}).get(name)
-        summary["obligations"].append(dict(name=name, prop=cp or case.prop, props=[cp] if cp else (list(case.props) if case.share else [case.prop]), path=0, status="proved" if n == ok else "refuted", backend="bounded-enumeration",
+        summary["obligations"].append(dict(name=name, prop=(cp[0] if isinstance(cp, (list, tuple)) else cp) or case.prop, props=(list(cp) if isinstance(cp, (list, tuple)) else [cp]) if cp else (list(case.props) if case.share else [case.prop]), path=0, status="proved" if n == ok else "refuted", backend="bounded-enumeration",
                                            seconds=0.0, detail="%d/%d inputs" % (ok, n), model=None, witness=repr(w)[:600] if w is not None else None,
                                            goal="holds on every enumerated input", npc=0, pc=[], exception=None, excuse=getattr(ctx, "excused", {}).get(name), evaluations=n))
     summary["wall_s"] = round(time.time() - t0, 3)
